@@ -85,6 +85,14 @@ def check_utmp(case, got, exp):
 DIRS = {"/": "/", "/mnt/a b": "/mnt/a b", "/mnt/tab": "/mnt/t\tb"}
 
 
+def opts_of(kind):
+    """(the same text as c17_worker.opts_of writes into the mount table)"""
+    if kind != "long":
+        return "rw,relatime"
+    s = "rw,lowerdir=" + ":".join("/var/lib/layers/%04d" % i for i in range(200))
+    return s[:2793] + ",x=last"          # 2800 bytes
+
+
 def check_mounts(case, got, exp):
     rows = rowsof(exp["rows"])
     g = [(r["device"], r["mountpoint"], r["fstype"]) for r in got]
@@ -92,8 +100,13 @@ def check_mounts(case, got, exp):
     bad = []
     if g != e:
         bad.append("disk_partitions(all=%s) -> %r, specification: %r" % (case["all"], g, e))
-    elif any(r["opts"] != "rw,relatime" for r in got):
-        bad.append("opts %r" % [r["opts"] for r in got])
+    else:
+        want = [len(opts_of("long" if r["optslen"] == 2800 else "short")) for r in rows]
+        if [len(r["opts"]) for r in got] != want:
+            bad.append("disk_partitions(all=%s): option strings of %r bytes, the mount table has %r"
+                       % (case["all"], [len(r["opts"]) for r in got], want))
+        elif any(r["opts"] != opts_of("long" if w == 2800 else "short") for r, w in zip(got, want)):
+            bad.append("opts differ from the mount table: %r" % [r["opts"][-30:] for r in got])
     return bad
 
 
